@@ -111,5 +111,6 @@ func controlsC17() []Control {
 		}},
 		{Name: "manager registers the reserved callback under the state setter", Expect: "F7", Mutate: replaceIn("(*manager).CreateTable", "tableEngine.OnTablePlayerStateUpdated(engineCallbacks.OnTablePlayerStateUpdated)", "tableEngine.OnTablePlayerStateUpdated(engineCallbacks.OnTablePlayerReserved)", 0)},
 		{Name: "manager ignores the caller callbacks", Expect: "F7", Mutate: replaceIn("(*manager).CreateTable", "if callbacks != nil {", "if callbacks == nil {", 0)},
+		{Name: "option constructor hands out one shared default object", Expect: "G3", Mutate: withDecl(replaceIn("NewTableEngineOptions", "return &TableEngineOptions{\n\t\tGameContinueInterval: 1, // 1 second by default\n\t\tOpenGameTimeout:      2,\n\t}", "return &sharedDefaultOptions", 0), "var sharedDefaultOptions = TableEngineOptions{GameContinueInterval: 1, OpenGameTimeout: 2}")},
 	}
 }
